@@ -21,9 +21,14 @@ func genStressCfg(t *rapid.T, semantic bool, millis int) stressCfg {
 	for i := 0; i < nk; i++ {
 		cfg.Reloads = append(cfg.Reloads, rapid.SampledFrom([]string{"partial", "partial", "full-ok", "full-ok", "missing", "nokey", "garbage"}).Draw(t, "kind"))
 	}
+	if !semantic && rapid.Bool().Draw(t, "with-timeouts") {
+		// (only without the generation invariants: a timed-out RocksDB catch-up that still
+		// takes effect is the listed C05 finding)
+		cfg.Reloads = append(cfg.Reloads, "partial-timeout")
+	}
 	good := false
 	for _, k := range cfg.Reloads {
-		if k == "partial" || k == "full-ok" {
+		if k == "partial" || k == "full-ok" || k == "partial-timeout" {
 			good = true
 		}
 	}
